@@ -929,7 +929,7 @@ def check_steps(chk, c, r, m):
         if big and s > 0 and on['stops'][s - 1]['numpts'] >= THR and 'density' in so and 'density' in on['stops'][s - 1] \
                 and so['run'] == on['stops'][s - 1]['run']:
             chk.count('steps-consecutive-large-path-interpolations')
-        if c.get('boundary') and max(len(g['surpluses']) for g in so['grids']) >= THR:
+        if c.get('boundary') and max((len(g['surpluses']) for g in so['grids']), default=0) >= THR:
             # excluded configuration: with boundary points the large-grid right-hand-side loop divides by zero at the boundary hats
             # (ZeroDivisionError with Python floats, inf/nan with numpy floats) whether or not old values are re-used
             chk.count('steps-boundary-grid>=200-excluded')
@@ -1019,7 +1019,7 @@ def model17_calls_ophist(case, r):
     # the extracted model keeps nat in unary representation: sample-index arithmetic is quadratic in the number of samples,
     # so the re-use machine and the bins checker are run for data sets of up to 100 samples and grids up to 520 points
     # (larger cases are compared with the model right-hand side rhs, which the re-use machine is PROVED to equal)
-    if len(case['data']) <= 100 and max(g_['N'] for s_ in r['on'] for g_ in s_['grids']) <= 520:
+    if len(case['data']) <= 100 and max((g_['N'] for s_ in r['on'] for g_ in s_['grids']), default=0) <= 520:
         calls.append(('reuse', 1, [THR, data, signs, r['sorted'], evs]))
         bins = [[[sx.rat(k[0]), sx.rat(k[1]), v[0], v[1]] for k, v in bm] for bm in r['bins']]
         calls.append(('bins', 2, [data, r['sorted'], bins]))
